@@ -678,7 +678,8 @@ func defaultName(s *hx.Seq) {
 		return
 	}
 	ctx := context.Background()
-	for _, given := range []string{"", "dev"} {
+	// "fills in only EMPTY names": names that merely look blank, or equal the default, are names
+	for _, given := range []string{"", "dev", " ", "\t", "\u00a0", " a ", "default", "DEFAULT", "0", "\x00"} {
 		for _, kind := range []string{"named", "unnamed", "non-string-name"} {
 			s.Eval(2)
 			s.Trans(2)
